@@ -2098,7 +2098,7 @@ class JsonMixin(object):
     def len(monad):
         sql = [ 'JSON_ARRAY_LENGTH', monad.getsql()[0] ]
         return NumericExprMonad(int, sql)
-    def cast_from_json(monad, type):
+    def cast_from_json(monad, type, for_comparison=False):
         if type in (Json, NoneType): return monad
         throw(TypeError, 'Cannot compare whole JSON value, you need to select specific sub-item: {EXPR}')
     def nonzero(monad):
@@ -2414,14 +2414,17 @@ class JsonItemMonad(JsonMixin, Monad):
         return monad.cast_from_json(str)
     def to_real(monad):
         return monad.cast_from_json(float)
-    def cast_from_json(monad, type):
+    def cast_from_json(monad, type, for_comparison=False):
         translator = monad.translator
         if issubclass(type, Json):
             if not translator.json_values_are_comparable: throw(TranslationError,
                 '%s does not support comparison of json structures: {EXPR}' % translator.dialect)
             return monad
         base_monad, path = monad.get_path()
-        sql = [ 'JSON_VALUE', base_monad.getsql()[0], path, type ]
+        if for_comparison and translator.dialect == 'SQLite':
+            type_to_cast = None  # json_extract() yields a typed SQL value; a CAST would convert values of other types
+        else: type_to_cast = type
+        sql = [ 'JSON_VALUE', base_monad.getsql()[0], path, type_to_cast ]
         return ExprMonad.new(Json if type is NoneType else type, sql)
     def getsql(monad):
         base_monad, path = monad.get_path()
@@ -2582,9 +2585,9 @@ class CmpMonad(BoolMonad):
         monad.aggregated = getattr(left, 'aggregated', False) or getattr(right, 'aggregated', False)
 
         if isinstance(left, JsonMixin):
-            left = left.cast_from_json(right.type)
+            left = left.cast_from_json(right.type, for_comparison=True)
         if isinstance(right, JsonMixin):
-            right = right.cast_from_json(left.type)
+            right = right.cast_from_json(left.type, for_comparison=True)
 
         monad.left = left
         monad.right = right
